@@ -1,7 +1,1 @@
 import Pfl
-#print axioms Pfl.ENFA.langDiff_none_iff
-#print axioms Pfl.ENFA.langDiff_some
-#print axioms Pfl.ENFA.toDet_lang
-#print axioms Pfl.ENFA.toDet_shape
-#print axioms Pfl.ENFA.mem_leadingToFinal_iff
-#print axioms Pfl.ENFA.isEmpty_iff
